@@ -1,5 +1,5 @@
 (* C04 - the shape of what the renderer Seq.v writes: where each cross-reference section
-   lies in the file and what its text looks like (for classic and stream sections). *)
+   lies in the file and what its text looks like. *)
 From Coq Require Import List NArith ZArith Bool Lia ZifyN ZifyNat ZifyBool.
 From GoPdf.Base Require Import Bytes Res.
 From GoPdf.C04 Require Import XRef XRefProofs XRefText XRefTextProofs Extent ExtentProofs Seq FileReader FileReaderProofs.
